@@ -10,6 +10,10 @@ package main
 //	                                   NewBaseGun: where the gun's Client comes from               -> baseGunClient
 //	guns/http/client.go                getHostWithoutPort                                          -> getHostWithoutPort
 //	                                   NewTransport / DefaultTransportConfig / TransportConfig tag -> keep-alive facts
+//	                                   NewTransport's http.Transport literal, DefaultTransportConfig, all config tags,
+//	                                   the transport every client constructor builds            -> newTransport, defaultTransportCfg,
+//	                                                                                              transportTags, clientTransports
+//	guns/http/base.go                  BaseGun.Shoot: what happens to the response after Client.Do -> shootResponse
 //	guns/http/http.go                  NewHTTP2Gun's ssl check                                     -> http2NeedsSSL
 //	phttp/import/import.go             what each gun factory assigns to conf.Target/TargetResolved -> factoryAssigns
 //	providers/http/decoders/uri.go     readLine: merge loop, header-line branch, Setup arguments   -> uriMergeStep, uriBase, uriSetup, uriHeaderLine
@@ -700,7 +704,24 @@ func (d *hwDesc) desc(e ast.Expr) string {
 	case *ast.TypeAssertExpr:
 		return d.desc(v.X) + ".(type)"
 	case *ast.CompositeLit:
-		return "composite"
+		name := "composite"
+		if v.Type != nil {
+			name += ":" + hwSrc(d.p, v.Type)
+		}
+		if len(v.Elts) > 0 && len(v.Elts) <= 2 {
+			var el []string
+			for _, e := range v.Elts {
+				if _, keyed := e.(*ast.KeyValueExpr); keyed {
+					el = nil
+					break
+				}
+				el = append(el, d.desc(e))
+			}
+			if el != nil {
+				name += "(" + strings.Join(el, ",") + ")"
+			}
+		}
+		return name
 	case *ast.FuncLit:
 		return "func"
 	}
@@ -1456,6 +1477,546 @@ func (x *hw) transport(out *strings.Builder) {
 	fmt.Fprintf(out, "/-- `NewHTTP2Gun` starts with `if !cfg.SSL { return nil, error }` -/\ndef http2NeedsSSL : Bool := %s\n\n", needs)
 }
 
+// ---------------------------------------------------------------- round 2: the whole transport wiring
+
+// hwTransportFields: Go field name (http.Transport and TransportConfig alike) -> field of Model.C09.Transport / TransportCfg
+var hwTransportFields = map[string]string{
+	"TLSHandshakeTimeout": "tlsHandshakeTimeout", "DisableKeepAlives": "disableKeepAlives", "DisableCompression": "disableCompression",
+	"MaxIdleConns": "maxIdleConns", "MaxIdleConnsPerHost": "maxIdleConnsPerHost", "IdleConnTimeout": "idleConnTimeout",
+	"ResponseHeaderTimeout": "responseHeaderTimeout", "ExpectContinueTimeout": "expectContinueTimeout",
+}
+
+var hwTransportBool = map[string]bool{"DisableKeepAlives": true, "DisableCompression": true}
+
+func hwTransportFieldOrder() []string {
+	var names []string
+	for n := range hwTransportFields {
+		names = append(names, n)
+	}
+	sort.Strings(names)
+	return names
+}
+
+// hwCfgExpr: an expression over the TransportConfig parameter `conf` as a Lean term (Int or Bool)
+func (x *hw) hwCfgExpr(p *packages.Package, e ast.Expr, conf types.Object) string {
+	if tv, ok := p.TypesInfo.Types[e]; ok && tv.Value != nil {
+		switch tv.Value.Kind() {
+		case constant.Bool:
+			return tv.Value.ExactString()
+		case constant.Int:
+			v := tv.Value.ExactString()
+			if strings.HasPrefix(v, "-") {
+				return "(" + v + ")"
+			}
+			return v
+		}
+	}
+	switch v := e.(type) {
+	case *ast.ParenExpr:
+		return x.hwCfgExpr(p, v.X, conf)
+	case *ast.SelectorExpr:
+		if id, ok := v.X.(*ast.Ident); ok && p.TypesInfo.Uses[id] == conf {
+			if f, ok := hwTransportFields[v.Sel.Name]; ok {
+				return "conf." + f
+			}
+		}
+	case *ast.UnaryExpr:
+		switch v.Op {
+		case token.NOT:
+			return "(!" + x.hwCfgExpr(p, v.X, conf) + ")"
+		case token.SUB:
+			return "(-" + x.hwCfgExpr(p, v.X, conf) + ")"
+		}
+	case *ast.BinaryExpr:
+		switch v.Op {
+		case token.ADD, token.SUB, token.MUL:
+			return "(" + x.hwCfgExpr(p, v.X, conf) + " " + v.Op.String() + " " + x.hwCfgExpr(p, v.Y, conf) + ")"
+		}
+	case *ast.CallExpr:
+		// a conversion such as time.Duration(x)
+		if tv, ok := p.TypesInfo.Types[v.Fun]; ok && tv.IsType() && len(v.Args) == 1 {
+			return x.hwCfgExpr(p, v.Args[0], conf)
+		}
+	}
+	return x.failf(p, e, "transport field value %s", hwSrc(p, e))
+}
+
+func (x *hw) transportWiring(out *strings.Builder) {
+	p := x.pkgs["components/guns/http"]
+	fd := hwFunc(p, "", "NewTransport")
+	if fd == nil || len(fd.Type.Params.List) == 0 || len(fd.Type.Params.List[0].Names) == 0 {
+		x.failf(p, nil, "NewTransport(conf, …) not found")
+		return
+	}
+	conf := p.TypesInfo.Defs[fd.Type.Params.List[0].Names[0]]
+	d := &hwDesc{x: x, p: p, fn: fd, labels: map[types.Object]string{}}
+	vals := map[string]string{}
+	var others []string
+	var trObj types.Object
+	nLit := 0
+	for _, st := range fd.Body.List {
+		as, ok := st.(*ast.AssignStmt)
+		if !ok || len(as.Lhs) != 1 || len(as.Rhs) != 1 {
+			continue
+		}
+		rhs := as.Rhs[0]
+		if un, ok := rhs.(*ast.UnaryExpr); ok && un.Op == token.AND {
+			rhs = un.X
+		}
+		if cl, ok := rhs.(*ast.CompositeLit); ok && hwSrc(p, cl.Type) == "http.Transport" {
+			nLit++
+			if id, ok := as.Lhs[0].(*ast.Ident); ok {
+				trObj = p.TypesInfo.Defs[id]
+				if trObj == nil {
+					trObj = p.TypesInfo.Uses[id]
+				}
+			}
+			for _, el := range cl.Elts {
+				kv, ok := el.(*ast.KeyValueExpr)
+				if !ok {
+					x.failf(p, el, "positional http.Transport literal")
+					continue
+				}
+				name := hwSrc(p, kv.Key)
+				if _, known := hwTransportFields[name]; known {
+					vals[name] = x.hwCfgExpr(p, kv.Value, conf)
+				} else {
+					others = append(others, name+"="+d.desc(kv.Value))
+				}
+			}
+		}
+	}
+	if nLit != 1 || trObj == nil {
+		x.failf(p, fd, "NewTransport: %d http.Transport literals assigned at top level, expected 1", nLit)
+		return
+	}
+	// every other statement that writes through the transport variable
+	var later []string
+	ast.Inspect(fd.Body, func(n ast.Node) bool {
+		as, ok := n.(*ast.AssignStmt)
+		if !ok {
+			return true
+		}
+		for i, l := range as.Lhs {
+			root, path := hwSelPath(l)
+			if root == nil || path == "" || p.TypesInfo.Uses[root] != trObj {
+				continue
+			}
+			if _, known := hwTransportFields[path]; known {
+				// a modelled field is rewritten: only as a plain top-level statement over conf
+				top := false
+				for _, st := range fd.Body.List {
+					if st == ast.Stmt(as) {
+						top = true
+					}
+				}
+				if !top || len(as.Lhs) != len(as.Rhs) || as.Tok != token.ASSIGN {
+					x.failf(p, as, "conditional or compound assignment to the transport's %s", path)
+					continue
+				}
+				vals[path] = x.hwCfgExpr(p, as.Rhs[i], conf)
+				continue
+			}
+			r := "?"
+			if len(as.Lhs) == len(as.Rhs) {
+				r = d.desc(as.Rhs[i])
+			}
+			later = append(later, path+"="+r)
+		}
+		return true
+	})
+	sort.Strings(others)
+	sort.Strings(later)
+	out.WriteString("/-- regenerated from `components/guns/http/client.go` func `NewTransport`: the fields of the http.Transport it returns, in terms\nof its TransportConfig parameter (a field the code leaves out keeps Go's zero value) -/\n")
+	out.WriteString("def newTransport (conf : TransportCfg) : Transport :=\n  { ")
+	var parts []string
+	for _, name := range hwTransportFieldOrder() {
+		v, ok := vals[name]
+		if !ok {
+			v = "0"
+			if hwTransportBool[name] {
+				v = "false"
+			}
+		}
+		parts = append(parts, hwTransportFields[name]+" := "+v)
+	}
+	out.WriteString(strings.Join(parts, "\n    ") + " }\n\n")
+	fmt.Fprintf(out, "/-- fields of NewTransport's http.Transport literal outside the model -/\ndef transportOtherFields : List String := %s\n\n", hwStrList(others))
+	fmt.Fprintf(out, "/-- other fields of the transport NewTransport assigns after the literal, by origin -/\ndef transportLaterAssigns : List String := %s\n\n", hwStrList(later))
+
+	// DefaultTransportConfig
+	fd2 := hwFunc(p, "", "DefaultTransportConfig")
+	defs := map[string]string{}
+	var defOthers []string
+	nDef := 0
+	if fd2 == nil {
+		x.failf(p, nil, "DefaultTransportConfig not found")
+	} else {
+		if len(fd2.Body.List) != 1 {
+			x.failf(p, fd2, "DefaultTransportConfig: expected a single return statement")
+		}
+		ast.Inspect(fd2.Body, func(n ast.Node) bool {
+			cl, ok := n.(*ast.CompositeLit)
+			if !ok || hwSrc(p, cl.Type) != "TransportConfig" {
+				return true
+			}
+			nDef++
+			for _, el := range cl.Elts {
+				kv, ok := el.(*ast.KeyValueExpr)
+				if !ok {
+					x.failf(p, el, "positional TransportConfig literal")
+					continue
+				}
+				name := hwSrc(p, kv.Key)
+				if _, known := hwTransportFields[name]; known {
+					defs[name] = x.hwCfgExpr(p, kv.Value, nil)
+				} else {
+					defOthers = append(defOthers, name)
+				}
+			}
+			return false
+		})
+		if nDef != 1 {
+			x.failf(p, fd2, "DefaultTransportConfig: %d TransportConfig literals, expected 1", nDef)
+		}
+	}
+	out.WriteString("/-- regenerated from `components/guns/http/client.go` func `DefaultTransportConfig` (durations in ns) -/\n")
+	out.WriteString("def defaultTransportCfg : TransportCfg :=\n  { ")
+	parts = nil
+	for _, name := range hwTransportFieldOrder() {
+		v, ok := defs[name]
+		if !ok {
+			v = "0"
+			if hwTransportBool[name] {
+				v = "false"
+			}
+		}
+		parts = append(parts, hwTransportFields[name]+" := "+v)
+	}
+	out.WriteString(strings.Join(parts, "\n    ") + " }\n\n")
+	sort.Strings(defOthers)
+	fmt.Fprintf(out, "/-- fields DefaultTransportConfig sets that the model does not have -/\ndef defaultTransportOtherFields : List String := %s\n\n", hwStrList(defOthers))
+
+	// config names of all TransportConfig fields, and how ClientConfig embeds it
+	var tags []string
+	if o := p.Types.Scope().Lookup("TransportConfig"); o != nil {
+		if st, ok := o.Type().Underlying().(*types.Struct); ok {
+			for i := 0; i < st.NumFields(); i++ {
+				tags = append(tags, fmt.Sprintf("(%q, %q)", st.Field(i).Name(), reflect.StructTag(st.Tag(i)).Get("config")))
+			}
+		}
+	}
+	sort.Strings(tags)
+	fmt.Fprintf(out, "/-- (Go field, `config:` name) of every field of TransportConfig, sorted -/\ndef transportTags : List (String × String) := [%s]\n\n", strings.Join(tags, ", "))
+	embed := "?"
+	if o := p.Types.Scope().Lookup("ClientConfig"); o != nil {
+		if st, ok := o.Type().Underlying().(*types.Struct); ok {
+			for i := 0; i < st.NumFields(); i++ {
+				if n, ok := st.Field(i).Type().(*types.Named); ok && n.Obj().Name() == "TransportConfig" {
+					embed = st.Field(i).Name() + ":" + reflect.StructTag(st.Tag(i)).Get("config")
+				}
+			}
+		}
+	}
+	if o := p.Types.Scope().Lookup("GunConfig"); o != nil {
+		if st, ok := o.Type().Underlying().(*types.Struct); ok {
+			for i := 0; i < st.NumFields(); i++ {
+				if n, ok := st.Field(i).Type().(*types.Named); ok && n.Obj().Name() == "ClientConfig" {
+					embed += " in " + st.Field(i).Name() + ":" + reflect.StructTag(st.Tag(i)).Get("config")
+				}
+			}
+		}
+	}
+	fmt.Fprintf(out, "/-- how the options reach the gun's config: TransportConfig inside ClientConfig inside GunConfig, with their `config:` tags\n(`,squash` = the options stand at the top level of the gun section) -/\ndef transportEmbedding : String := %q\n\n", embed)
+
+	// which transport every client constructor builds, and from which part of its configuration
+	var rows []string
+	for _, name := range []string{"HTTP1ClientConstructor", "HTTP2ClientConstructor", "newConnectClientVia", "NewHTTP2Transport"} {
+		f := hwFunc(p, "", name)
+		if f == nil {
+			x.failf(p, nil, "%s not found", name)
+			continue
+		}
+		dd := &hwDesc{x: x, p: p, fn: f, labels: map[types.Object]string{}}
+		var calls []string
+		ast.Inspect(f.Body, func(n ast.Node) bool {
+			if c, ok := n.(*ast.CallExpr); ok {
+				switch hwCallee(p, c) {
+				case "NewTransport", "NewHTTP2Transport":
+					calls = append(calls, dd.desc(c))
+				}
+			}
+			return true
+		})
+		rows = append(rows, name+": "+strings.Join(calls, " ; "))
+	}
+	fmt.Fprintf(out, "/-- the transport each client constructor builds: the TransportConfig handed to NewTransport is the gun's own -/\ndef clientTransports : List String := %s\n\n", hwStrList(rows))
+	// the default of DefaultClientConfig().Transport
+	if f := hwFunc(p, "", "DefaultClientConfig"); f != nil {
+		dd := &hwDesc{x: x, p: p, fn: f, labels: map[types.Object]string{}}
+		tr, red := "absent", "absent"
+		ast.Inspect(f.Body, func(n ast.Node) bool {
+			if kv, ok := n.(*ast.KeyValueExpr); ok {
+				switch hwSrc(p, kv.Key) {
+				case "Transport":
+					tr = dd.desc(kv.Value)
+				case "Redirect":
+					red = dd.desc(kv.Value)
+				}
+			}
+			return true
+		})
+		fmt.Fprintf(out, "/-- `DefaultClientConfig()`: where the default transport options come from; the default of `redirect` -/\ndef defaultClientTransport : String := %q\ndef defaultClientRedirect : String := %q\n\n", tr, red)
+	} else {
+		x.failf(p, nil, "DefaultClientConfig not found")
+	}
+}
+
+// shootResponse: what BaseGun.Shoot does with the response after Client.Do, outside the option-guarded blocks: the
+// connection is reusable only when the body is read to its end before it is closed
+func (x *hw) shootResponse(out *strings.Builder) {
+	p := x.pkgs["components/guns/http"]
+	fd := hwFunc(p, "BaseGun", "Shoot")
+	if fd == nil {
+		return
+	}
+	recv := p.TypesInfo.Defs[fd.Recv.List[0].Names[0]]
+	d := &hwDesc{x: x, p: p, fn: fd, labels: map[types.Object]string{}, shallow: true}
+	var resObj, errObj types.Object
+	var rows []string
+	label := func() {
+		if resObj != nil {
+			d.labels[resObj] = "res"
+		}
+		if errObj != nil {
+			d.labels[errObj] = "err"
+		}
+	}
+	after := false
+	for _, s := range fd.Body.List {
+		if !after {
+			if as, ok := s.(*ast.AssignStmt); ok && len(as.Rhs) == 1 && len(as.Lhs) == 2 {
+				if c, ok := as.Rhs[0].(*ast.CallExpr); ok && hwCallee(p, c) == ".Do" {
+					if id, ok := as.Lhs[0].(*ast.Ident); ok {
+						resObj = p.TypesInfo.Uses[id]
+						if resObj == nil {
+							resObj = p.TypesInfo.Defs[id]
+						}
+					}
+					if id, ok := as.Lhs[1].(*ast.Ident); ok {
+						errObj = p.TypesInfo.Uses[id]
+						if errObj == nil {
+							errObj = p.TypesInfo.Defs[id]
+						}
+					}
+					after = true
+					label()
+				}
+			}
+			continue
+		}
+		if resObj == nil {
+			break
+		}
+		mentions := hwMentions(p, s, resObj)
+		// `if err != nil { … return }` right after Do
+		if ifs, ok := s.(*ast.IfStmt); ok && ifs.Init == nil {
+			if be, ok := ifs.Cond.(*ast.BinaryExpr); ok && be.Op == token.NEQ && hwSrc(p, be.Y) == "nil" {
+				if id, ok := be.X.(*ast.Ident); ok && errObj != nil && p.TypesInfo.Uses[id] == errObj {
+					if _, isRet := ifs.Body.List[len(ifs.Body.List)-1].(*ast.ReturnStmt); isRet {
+						rows = append(rows, "if-err-return")
+						continue
+					}
+				}
+			}
+			// option-guarded block
+			c := ifs.Cond
+			for {
+				if be, ok := c.(*ast.BinaryExpr); ok && be.Op == token.LAND {
+					c = be.X
+					continue
+				}
+				break
+			}
+			if root, path := hwSelPath(c); root != nil && p.TypesInfo.Uses[root] == recv {
+				opt := false
+				for _, o := range hwShootOptional {
+					if path == o || strings.HasPrefix(path, o+".") {
+						opt = true
+					}
+				}
+				if opt {
+					continue
+				}
+			}
+		}
+		if !mentions {
+			continue
+		}
+		switch v := s.(type) {
+		case *ast.DeferStmt:
+			rows = append(rows, "defer "+d.desc(v.Call))
+		case *ast.ExprStmt, *ast.AssignStmt:
+			rows = append(rows, d.descStmt(s))
+		default:
+			rows = append(rows, "stmt:"+hwSrc(p, s))
+		}
+	}
+	if !after || resObj == nil {
+		x.failf(p, fd, "BaseGun.Shoot: `res, err = b.Client.Do(req)` not found")
+		return
+	}
+	sort.Strings(rows) // the statements are independent of each other's order (the deferred Close runs last wherever it stands)
+	fmt.Fprintf(out, "/-- regenerated from `(*BaseGun).Shoot`: the statements after `res, err = b.Client.Do(req)` that mention the response, outside\nthe option-guarded blocks of `shootSkipped`, sorted (`res`/`err` = the results of Do, `local` = another local variable) -/\ndef shootResponse : List String := %s\n\n", hwStrList(rows))
+}
+
+// hwDescBlock: a whole (small) function body by origin descriptors, name-independent
+func (d *hwDesc) hwDescBlock(list []ast.Stmt) []string {
+	var out []string
+	for _, s := range list {
+		switch v := s.(type) {
+		case *ast.ReturnStmt:
+			var r []string
+			for _, e := range v.Results {
+				r = append(r, d.desc(e))
+			}
+			out = append(out, "return "+strings.Join(r, ","))
+		case *ast.IfStmt:
+			row := "if(" + d.desc(v.Cond) + "){" + strings.Join(d.hwDescBlock(v.Body.List), ";") + "}"
+			if v.Else != nil {
+				if eb, ok := v.Else.(*ast.BlockStmt); ok {
+					row += "else{" + strings.Join(d.hwDescBlock(eb.List), ";") + "}"
+				} else {
+					row += "else?"
+				}
+			}
+			out = append(out, row)
+		case *ast.ExprStmt, *ast.AssignStmt:
+			out = append(out, d.descStmt(s))
+		default:
+			out = append(out, "stmt:"+hwSrc(d.p, s))
+		}
+	}
+	return out
+}
+
+// clientDo: how a request handed to Client.Do reaches the transport: exactly once, unchanged
+func (x *hw) clientDo(out *strings.Builder) {
+	p := x.pkgs["components/guns/http"]
+	var rows []string
+	if fd := hwFunc(p, "noRedirectClient", "Do"); fd != nil {
+		d := &hwDesc{x: x, p: p, fn: fd, labels: map[types.Object]string{}, shallow: true}
+		rows = append(rows, "noRedirectClient.Do: "+strings.Join(d.hwDescBlock(fd.Body.List), " ; "))
+	} else {
+		x.failf(p, nil, "noRedirectClient.Do not found")
+	}
+	if fd := hwFunc(p, "", "NewRedirectingClient"); fd != nil {
+		d := &hwDesc{x: x, p: p, fn: fd, labels: map[types.Object]string{}, shallow: true}
+		rows = append(rows, "NewRedirectingClient: "+strings.Join(d.hwDescBlock(fd.Body.List), " ; "))
+	} else {
+		x.failf(p, nil, "NewRedirectingClient not found")
+	}
+	// the http2 wrapper: how often it calls the wrapped client
+	if fd := hwFunc(p, "panicOnHTTP1Client", "Do"); fd != nil {
+		n := 0
+		ast.Inspect(fd.Body, func(nd ast.Node) bool {
+			if c, ok := nd.(*ast.CallExpr); ok && hwCallee(p, c) == ".Do" {
+				n++
+			}
+			return true
+		})
+		d := &hwDesc{x: x, p: p, fn: fd, labels: map[types.Object]string{}, shallow: true}
+		first := ""
+		if len(fd.Body.List) > 0 {
+			first = strings.Join(d.hwDescBlock(fd.Body.List[:1]), "")
+		}
+		rows = append(rows, fmt.Sprintf("panicOnHTTP1Client.Do: %d inner Do calls; first: %s", n, first))
+	} else {
+		x.failf(p, nil, "panicOnHTTP1Client.Do not found")
+	}
+	fmt.Fprintf(out, "/-- regenerated from `components/guns/http/client.go`: what the gun's Client does with a request — one RoundTrip of the\ntransport with the request as it is (no retry, no redirect following unless `redirect` is set) -/\ndef clientDo : List String := %s\n\n", hwStrList(rows))
+}
+
+// connectShape: the connect gun — where a tunnel's TCP connection goes and what the CONNECT request names
+func (x *hw) connectShape(out *strings.Builder) {
+	p := x.pkgs["components/guns/http"]
+	var rows []string
+	labelLit := func(d *hwDesc, fl *ast.FuncLit) {
+		i := 0
+		for _, f := range fl.Type.Params.List {
+			for _, n := range f.Names {
+				d.labels[p.TypesInfo.Defs[n]] = fmt.Sprintf("lit%d", i)
+				i++
+			}
+		}
+	}
+	if fd := hwFunc(p, "", "NewConnectGun"); fd != nil {
+		d := &hwDesc{x: x, p: p, fn: fd, labels: map[types.Object]string{}}
+		for _, st := range fd.Body.List {
+			switch v := st.(type) {
+			case *ast.IfStmt:
+				rows = append(rows, "NewConnectGun: "+strings.Join(d.hwDescBlock([]ast.Stmt{v}), ""))
+			case *ast.ReturnStmt:
+				ast.Inspect(v, func(n ast.Node) bool {
+					if fl, ok := n.(*ast.FuncLit); ok {
+						labelLit(d, fl)
+						ast.Inspect(fl.Body, func(m ast.Node) bool {
+							if c, ok := m.(*ast.CallExpr); ok && strings.HasPrefix(hwCallee(p, c), "newConnectClient") {
+								rows = append(rows, "NewConnectGun client: "+d.desc(c))
+							}
+							return true
+						})
+						return false
+					}
+					return true
+				})
+				if len(v.Results) == 1 {
+					if c, ok := v.Results[0].(*ast.CallExpr); ok {
+						var args []string
+						for _, a := range c.Args {
+							args = append(args, d.desc(a))
+						}
+						rows = append(rows, "NewConnectGun: return "+hwCallee(p, c)+"("+strings.Join(args, ",")+")")
+					}
+				}
+			}
+		}
+	} else {
+		x.failf(p, nil, "NewConnectGun not found")
+	}
+	if fd := hwFunc(p, "", "newConnectDialFunc"); fd != nil {
+		d := &hwDesc{x: x, p: p, fn: fd, labels: map[types.Object]string{}, shallow: true}
+		ast.Inspect(fd.Body, func(n ast.Node) bool {
+			if fl, ok := n.(*ast.FuncLit); ok && len(d.labels) == 0 {
+				labelLit(d, fl)
+			}
+			switch v := n.(type) {
+			case *ast.CallExpr:
+				if hwCallee(p, v) == ".DialContext" {
+					rows = append(rows, "tunnel dial: "+d.desc(v))
+				}
+			case *ast.CompositeLit:
+				if hwSrc(p, v.Type) == "http.Request" {
+					var kv []string
+					for _, e := range v.Elts {
+						if k, ok := e.(*ast.KeyValueExpr); ok {
+							switch hwSrc(p, k.Key) {
+							case "Method", "Host":
+								kv = append(kv, hwSrc(p, k.Key)+"="+d.desc(k.Value))
+							}
+						}
+					}
+					rows = append(rows, "tunnel request: "+strings.Join(kv, " "))
+				}
+			}
+			return true
+		})
+	} else {
+		x.failf(p, nil, "newConnectDialFunc not found")
+	}
+	fmt.Fprintf(out, "/-- regenerated from `components/guns/http/connect.go`: NewConnectGun opens its tunnels at `TargetResolved` (the target itself\nwhen nothing was resolved); the dial function connects to that address and sends `CONNECT <address the transport asks for>`\n(`litN` = N-th parameter of the function literal) -/\ndef connectShape : List String := %s\n\n", hwStrList(rows))
+}
+
 func (x *hw) factories(out *strings.Builder) {
 	p := x.pkgs["components/phttp/import"]
 	fd := hwFunc(p, "", "Import")
@@ -1531,6 +2092,10 @@ func httpwireExtra(t *tr) string {
 	x.rawSites(&out)
 	x.decodeRequest(&out)
 	x.transport(&out)
+	x.transportWiring(&out)
+	x.shootResponse(&out)
+	x.clientDo(&out)
+	x.connectShape(&out)
 	x.factories(&out)
 	return out.String()
 }
